@@ -122,6 +122,17 @@ impl<'a> ZoneHydrator<'a> {
                 }
             }
         } else {
+            // Zones coming from an index pruner carry no uid, zones from a full-scan fallback do;
+            // when a plan yields both, the ones without a uid belong to the plan's event type.
+            if candidate_zones.iter().any(|z| z.uid().is_none()) {
+                if let Some(uid) = self.plan.event_type_uid().await {
+                    for (idx, zone) in candidate_zones.iter().enumerate() {
+                        if zone.uid().is_none() {
+                            zones_by_uid.entry(uid.clone()).or_default().push(idx);
+                        }
+                    }
+                }
+            }
             if tracing::enabled!(tracing::Level::INFO) {
                 let mut uid_summary: Vec<String> = zones_by_uid
                     .iter()
